@@ -455,7 +455,7 @@ def correspondence(ctx):
         return {"evaluations": 0, "distinct_nontrivial": 0, "rule": "", "samples": [], "distribution": {}, "failing": [],
                 "error": "runner does not compile (%s):\n%s" % (failed, log[-2000:])}
     rng = ctx.rng("corr")
-    cases = gen_cases(rng, ctx.n(90, 800))
+    cases = gen_cases(rng, ctx.n(75, 800))
     terms, keep, dist, nt = [], [], {}, set()
     for sc in cases:
         try:
@@ -639,7 +639,7 @@ def judge(case):
 
 def oracle(ctx, scale=1):
     rng = ctx.rng("oracle")
-    cases = gen_cases(rng, ctx.n(75, 600) * scale)
+    cases = gen_cases(rng, ctx.n(60, 600) * scale)
     out, dist = [], {}
     for sc in cases:
         v = judge_fit(sc) if sc["op"] == "fit" else judge_train(sc)
